@@ -64,6 +64,11 @@ pub enum Sampler {
     D4(SampleGenerator<4>),
     D5(SampleGenerator<5>),
     D6(SampleGenerator<6>),
+    D7(SampleGenerator<7>),
+    D8(SampleGenerator<8>),
+    D9(SampleGenerator<9>),
+    D10(SampleGenerator<10>),
+    D11(SampleGenerator<11>),
 }
 
 #[macro_export]
@@ -76,6 +81,11 @@ macro_rules! with_sampler {
             $crate::obs::Sampler::D4($g) => $body,
             $crate::obs::Sampler::D5($g) => $body,
             $crate::obs::Sampler::D6($g) => $body,
+            $crate::obs::Sampler::D7($g) => $body,
+            $crate::obs::Sampler::D8($g) => $body,
+            $crate::obs::Sampler::D9($g) => $body,
+            $crate::obs::Sampler::D10($g) => $body,
+            $crate::obs::Sampler::D11($g) => $body,
         }
     };
 }
@@ -115,6 +125,11 @@ pub fn build(g: &OGraph, sig: &[Vec<isize>]) -> BuildOutcome {
             4 => Sampler::D4(graph.build_sampler::<4>(sig)?),
             5 => Sampler::D5(graph.build_sampler::<5>(sig)?),
             6 => Sampler::D6(graph.build_sampler::<6>(sig)?),
+            7 => Sampler::D7(graph.build_sampler::<7>(sig)?),
+            8 => Sampler::D8(graph.build_sampler::<8>(sig)?),
+            9 => Sampler::D9(graph.build_sampler::<9>(sig)?),
+            10 => Sampler::D10(graph.build_sampler::<10>(sig)?),
+            11 => Sampler::D11(graph.build_sampler::<11>(sig)?),
             _ => panic!("harness: dimension {dim} not dispatched"),
         })
     }));
@@ -140,6 +155,11 @@ impl Sampler {
             Sampler::D4(_) => 4,
             Sampler::D5(_) => 5,
             Sampler::D6(_) => 6,
+            Sampler::D7(_) => 7,
+            Sampler::D8(_) => 8,
+            Sampler::D9(_) => 9,
+            Sampler::D10(_) => 10,
+            Sampler::D11(_) => 11,
         }
     }
     /// the table as serde shows it (None when a value is not representable, e.g. NaN -> null)
@@ -163,6 +183,11 @@ impl Sampler {
             4 => Sampler::D4(serde_json::from_str(s).map_err(e)?),
             5 => Sampler::D5(serde_json::from_str(s).map_err(e)?),
             6 => Sampler::D6(serde_json::from_str(s).map_err(e)?),
+            7 => Sampler::D7(serde_json::from_str(s).map_err(e)?),
+            8 => Sampler::D8(serde_json::from_str(s).map_err(e)?),
+            9 => Sampler::D9(serde_json::from_str(s).map_err(e)?),
+            10 => Sampler::D10(serde_json::from_str(s).map_err(e)?),
+            11 => Sampler::D11(serde_json::from_str(s).map_err(e)?),
             _ => return Err("dim".into()),
         })
     }
@@ -178,6 +203,11 @@ impl Sampler {
             4 => Sampler::D4(crate::seqfmt::from_seq_value(v)?),
             5 => Sampler::D5(crate::seqfmt::from_seq_value(v)?),
             6 => Sampler::D6(crate::seqfmt::from_seq_value(v)?),
+            7 => Sampler::D7(crate::seqfmt::from_seq_value(v)?),
+            8 => Sampler::D8(crate::seqfmt::from_seq_value(v)?),
+            9 => Sampler::D9(crate::seqfmt::from_seq_value(v)?),
+            10 => Sampler::D10(crate::seqfmt::from_seq_value(v)?),
+            11 => Sampler::D11(crate::seqfmt::from_seq_value(v)?),
             _ => return Err("dim".into()),
         })
     }
@@ -197,6 +227,11 @@ impl Sampler {
             4 => Sampler::D4(de(b)?),
             5 => Sampler::D5(de(b)?),
             6 => Sampler::D6(de(b)?),
+            7 => Sampler::D7(de(b)?),
+            8 => Sampler::D8(de(b)?),
+            9 => Sampler::D9(de(b)?),
+            10 => Sampler::D10(de(b)?),
+            11 => Sampler::D11(de(b)?),
             _ => return Err("dim".into()),
         })
     }
@@ -208,6 +243,11 @@ impl Sampler {
             Sampler::D4(s) => Sampler::D4(s.clone()),
             Sampler::D5(s) => Sampler::D5(s.clone()),
             Sampler::D6(s) => Sampler::D6(s.clone()),
+            Sampler::D7(s) => Sampler::D7(s.clone()),
+            Sampler::D8(s) => Sampler::D8(s.clone()),
+            Sampler::D9(s) => Sampler::D9(s.clone()),
+            Sampler::D10(s) => Sampler::D10(s.clone()),
+            Sampler::D11(s) => Sampler::D11(s.clone()),
         }
     }
     pub fn get_dimension(&self) -> Result<usize, String> {
